@@ -294,6 +294,7 @@ func (u *Upstream) run(isResume bool) error {
 	})
 	if isResume && u.Config.QoS == message.QoSReliable {
 		eg.Go(func() error {
+			verifhook.Point("upstream.resend.list", u.ID.String())
 			m, err := u.sent.List(ctx, u.ID)
 			if err != nil {
 				return nil
